@@ -357,13 +357,13 @@ def r4_exact_unless_fuzzy(chk, repo):
     chk.floor("C02.R4", "positive returns in _folder_matches", len(good), 2)
     for n in good:
         facts = mcfg.guard_facts(n)
-        base = ("_data_type != key.data_type", False) in facts and any(t == "_run_id != key._run_id" and not p for t, p in literals_of(facts))
+        base = ("_data_type != key.data_type", False) in facts and (("_run_id != key._run_id", False) in facts)
         chk.check(("_data_type != key.data_type", False) in facts, "C02.R4", fm, n.stmt, "folder accepted without comparing the data type", site_text="_folder_matches: data type compared")
         if ("fuzzy_for", False) in facts and ("fuzzy_for_options", False) in facts:
             chk.check(("_hash == key.lineage_hash", True) in facts, "C02.R4", fm, n.stmt, "folder accepted without comparing the lineage hash", site_text="_folder_matches: exact branch compares the lineage hash")
         else:
             chk.check(any(t.startswith("self._matches(") and p for t, p in facts), "C02.R4", fm, n.stmt, "fuzzy branch accepts a folder without comparing lineages", site_text="_folder_matches: fuzzy branch compares filtered lineages")
-    rid = [n for n in mcfg.stmt_nodes() if isinstance(n.stmt, ast.Return) and isinstance(n.stmt.value, ast.Constant) and n.stmt.value.value is False and any(t == "_run_id != key._run_id" and p for t, p in mcfg.guard_facts(n))]
+    rid = [n for n in mcfg.stmt_nodes() if isinstance(n.stmt, ast.Return) and isinstance(n.stmt.value, ast.Constant) and n.stmt.value.value is False and (("_run_id != key._run_id", True) in mcfg.guard_facts(n))]
     chk.check(bool(rid), "C02.R4", fm, None, "folder of another run (or another superrun definition) can match", site_text="_folder_matches: run id (incl. superrun suffix) compared")
 
 
